@@ -80,6 +80,18 @@ pub struct HipPath<'borrow, B>(HipOsStr<'borrow, B>)
 where
     B: Backend;
 
+/// Verification hooks.
+#[cfg(hipstr_verif)]
+impl<'borrow, B> HipPath<'borrow, B>
+where
+    B: Backend,
+{
+    /// Returns the underlying byte string.
+    pub fn verif_bytes(&self) -> &crate::bytes::HipByt<'borrow, B> {
+        &(self.0).0
+    }
+}
+
 impl<'borrow, B> HipPath<'borrow, B>
 where
     B: Backend,
